@@ -297,18 +297,25 @@ def run_history(hist, backend='memory', path=None, reopen=False):
 
 
 def expand(hist):
+    import copy
     ops = ops_alphabet()
     kids, viol = [], []
+    parent, pbad = run_history(hist)
+    if hist:
+        observe(parent)
+    pclock = env.Clock.now
     for op in ops:
         h2 = list(hist) + [list(op)]
-        w, bad = run_history(h2)
+        # the in-memory world is copied instead of replayed (same operations, same order)
+        w = copy.deepcopy(parent)
+        env.Clock.set(pclock)
+        bad = apply_op(w, tuple(op))
         obs = observe(w)
         if not bad:
             bad = compare(obs, expected(w))
         key = canon(w)
-        w.close()
         # file-backed cache must behave identically, step for step
-        if CFG['shelve']:
+        if CFG['shelve'] and len(h2) <= CFG['shelve_depth']:
             ws, bad2 = run_history(h2, 'shelve', os.path.join(CFG['tmp'], 'cache-%d' % os.getpid()), reopen=CFG['reopen'])
             obs2 = observe(ws)
             ws.close()
@@ -331,6 +338,8 @@ def run(ctx):
     CFG['subjects'] = ('s1', 's2', 's3') if not ctx.thorough else ('s1', 's2', 's3', 's4')
     CFG['expiries'] = EXPIRIES
     CFG['shelve'] = True
+    CFG['nodedup'] = 2
+    CFG['shelve_depth'] = 2 if not ctx.thorough else 99
     CFG['reopen'] = ctx.thorough
     depth = 3 if not ctx.thorough else 4
     max_states = 4000 if not ctx.thorough else 60000
@@ -352,6 +361,8 @@ def run(ctx):
                 for kind, q in why[:3]:
                     ctx.violation({'kind': 'history', 'why': kind, 'query': q, 'last_op': hist[-1][0], 'ops': hist}, {})
             for hist, key in kids:
+                if len(hist) <= CFG['nodedup']:
+                    key = repr(hist)       # short histories are never merged: hidden state (memos) shows in their futures
                 if key not in seen:
                     seen[key] = hist
                     nxt.append(hist)
@@ -366,13 +377,13 @@ def run(ctx):
     return {
         'level': 'model_checking',
         'coverage': {
-            'states': len(seen), 'transitions': transitions, 'traces_validated_against_impl': transitions * 2,
+            'states': len(seen), 'transitions': transitions, 'traces_validated_against_impl': transitions,
             'samples': [{'history': s} for s in samples[:3]] or [{'history': []}], 'exhaustive': not capped,
             'max_depth': depth, 'states_by_depth': by_depth, 'frontier_at_bound': len(frontier),
             'queries_per_state': len(observe(w0)),
             'alphabet': {'subjects': {s: SUBJECTS[s] for s in CFG['subjects']}, 'sources': SOURCES, 'infos': sorted(INFOS),
                          'expiry_offsets': EXPIRIES, 'tick': TICK},
-            'rule': 'BFS over histories of set/add(Population)/tick/reset/delete on a fresh real Cache (memory) and, for every transition, the same history on the shelve-backed Cache%s; after every step %d queries (get, active, get_identity with entity lists, entities, stale sources, subjects; with and without expiry checking) are compared with a reference dict under the virtual clock and between the two back-ends; states merged by (reference content, clock)' % (' reopened between steps' if ctx.thorough else '', len(observe(w0))),
+            'rule': 'BFS over histories of set/add(Population)/tick/reset/delete on a fresh real Cache (memory) and the same history on the shelve-backed Cache%s (quick: every history of length <= 2; thorough: every transition); after every step %d queries (get, active, get_identity with entity lists, entities, stale sources, subjects; with and without expiry checking) are compared with a reference dict under the virtual clock and between the two back-ends; states merged by (reference content, clock) from depth 3 on (histories of length <= 2 are all kept distinct, so that implementation state the reference does not have - caches, memos - is exposed by their futures)' % (' reopened between steps' if ctx.thorough else '', len(observe(w0))),
         },
         'assumptions': ['expiry exactly at now counts as not yet passed (the quantifier lists before/at/after); expiry 0 with non-empty info is not generated',
                         'queries on never-stored subjects/sources: any exception or empty result counts as no data'],
@@ -385,6 +396,8 @@ def replay(ctx, w):
     CFG['expiries'] = EXPIRIES
     CFG['shelve'] = True
     CFG['reopen'] = False
+    CFG['nodedup'] = 2
+    CFG['shelve_depth'] = 99
     wd, bad = run_history(w['ops'])
     obs = observe(wd)
     if not bad:
